@@ -520,6 +520,10 @@ def pre_states(kind, ctx, rnd, rich):
         out.append({"st": "mod", "b": ["s0"], "d": "v2", "a": [], "canon": True, "nl": True})
         out.append({"st": "mod", "b": ["s0", "s3"], "d": "absent", "a": [], "nl": True})
     out.append({"st": "mod", "b": frames[1][0], "d": "v1", "a": frames[1][1], "canon": False, "nl": True})
+    if not inside(kind, ctx):
+        # exactly what sync writes, but for the newline at the very end (an editor saved it that way)
+        out.append({"st": "mod", "b": [], "d": "v1", "a": [], "canon": True, "nl": False})
+        out.append({"st": "mod", "b": [], "d": "v2", "a": [], "canon": True, "nl": False})
     # the name is bound again after the definition: the definition is the first binding
     rebind = ["C.m4"] if inside(kind, ctx) else {"class": ["r1"], "argparse": ["r2"], "function": ["r3"]}[kind]
     for d in ("v1", "v2"):
